@@ -888,3 +888,86 @@ T("C09", "twin-ndarray-conj-T", (OPUT, "        conjugate_operator = operator.T.
 T("C09", "twin-reverse-index-reassociated", (OUT, "            new_qubit_num = n_qubits - 1 - qubit_num", "            new_qubit_num = (n_qubits - qubit_num) - 1"))
 T("C09", "twin-scale-values-on-a-copy", (SPT, "        sparse_operators = [coefficient]", "        sparse_operators = []"), (SPT, "        values_list.append(sparse_matrix.tocoo(copy=False).data)", "        values_list.append(coefficient * sparse_matrix.tocoo(copy=False).data)"))
 T("C09", "twin-trailing-test-mirrored", (SPT, "        if tensor_factor < n_qubits or not qubit_term:", "        if not qubit_term or n_qubits > tensor_factor:"))
+
+# ----------------------------------------------------------------------------- C10
+B("C10", "union-for-symmetric-difference", (MEAS, "                marked_qubits = first_term.qubits.symmetric_difference(\n                    second_term.qubits\n                )", "                marked_qubits = first_term.qubits.union(\n                    second_term.qubits\n                )"), rule="C10-D1")
+B("C10", "pair-drops-second-coefficient", (MEAS, "                    first_term.coefficient\n                    * second_term.coefficient\n                    * get_expectation_value_from_frequencies(", "                    first_term.coefficient\n                    * get_expectation_value_from_frequencies("), rule="C10-D1")
+B("C10", "diagonal-is-coefficient", (MEAS, "            correlations[i, i] = first_term.coefficient**2", "            correlations[i, i] = first_term.coefficient"), rule="C10-D1")
+B("C10", "no-symmetric-fill", (MEAS, "                correlations[j, i] = correlations[i, j]\n", ""), rule="C10-D1")
+B("C10", "constant-shortcut-index-slip", (MEAS, """                marked_qubits = first_term.qubits.symmetric_difference(
+                    second_term.qubits
+                )
+                correlations[i, j] = (
+                    first_term.coefficient
+                    * second_term.coefficient
+                    * get_expectation_value_from_frequencies(
+                        marked_qubits, bitstring_frequencies
+                    )
+                )""", """                if second_term.is_constant:
+                    correlations[i, j] = second_term.coefficient * expectation_values[i]
+                elif first_term.is_constant:
+                    correlations[i, j] = first_term.coefficient * expectation_values[i]
+                else:
+                    marked_qubits = first_term.qubits.symmetric_difference(
+                        second_term.qubits
+                    )
+                    correlations[i, j] = (
+                        first_term.coefficient
+                        * second_term.coefficient
+                        * get_expectation_value_from_frequencies(
+                            marked_qubits, bitstring_frequencies
+                        )
+                    )"""), rule="C10-D1")
+B("C10", "bessel-branches-swapped", (MEAS, "            num_measurements - 1 if use_bessel_correction else num_measurements", "            num_measurements if use_bessel_correction else num_measurements - 1"), rule="C10-D2")
+B("C10", "divide-by-distinct-outcomes", (MEAS, "        bitstring_frequencies = self.get_counts()\n        num_measurements = len(self.bitstrings)\n\n        # Perform weighted average", "        bitstring_frequencies = self.get_counts()\n        num_measurements = len(bitstring_frequencies)\n\n        # Perform weighted average"), rule="C10-D2")
+B("C10", "covariance-adds-outer", (MEAS, "            correlations\n            - expectation_values[:, np.newaxis] * expectation_values[np.newaxis, :]", "            correlations\n            + expectation_values[:, np.newaxis] * expectation_values[np.newaxis, :]"), rule="C10-D2")
+B("C10", "ising-guard-after-work", (MEAS, """        if not ising_operator.is_ising:
+            raise TypeError("Input operator is not ising.")
+
+        # Count number of occurrences of bitstrings
+        bitstring_frequencies = self.get_counts()
+        num_measurements = len(self.bitstrings)
+""", """        # Count number of occurrences of bitstrings
+        bitstring_frequencies = self.get_counts()
+        num_measurements = len(self.bitstrings)
+"""), rule="C10-D3")
+B("C10", "value-without-coefficient", (MEAS, "            term.coefficient\n            * get_expectation_value_from_frequencies(term.qubits, bitstring_frequencies)", "            get_expectation_value_from_frequencies(term.qubits, bitstring_frequencies)"), rule="C10-D4")
+B("C10", "values-skip-constant-terms", (MEAS, "            for term in ising_operator.terms\n        ]\n        expectation_values = np.array(expectation_values_list)", "            for term in ising_operator.terms\n            if not term.is_constant\n        ]\n        expectation_values = np.array(expectation_values_list)"), rule="C10-D4")
+B("C10", "eigenvalue-sign-flipped", (MEAS, "        * 2\n        - 1\n    )\n    num_measurements = sum(bitstring_frequencies.values())", "        * -2\n        + 1\n    )\n    num_measurements = sum(bitstring_frequencies.values())"), rule="C10-D4")
+B("C10", "parity-indicator-odd", (PAR, "    return (bitstring_subset.sum(axis=1) + 1) % 2", "    return bitstring_subset.sum(axis=1) % 2"), rule="C10-D4")
+B("C10", "empty-support-odd", (PAR, "    if not marked_qubits:\n        return np.ones(bitstrings_vector.shape[0])", "    if not marked_qubits:\n        return np.zeros(bitstrings_vector.shape[0])"), rule="C10-D4")
+B("C10", "mean-divides-by-distinct", (MEAS, "    num_measurements = sum(bitstring_frequencies.values())", "    num_measurements = len(bitstring_frequencies)"), rule="C10-D4")
+B("C10", "counts-of-distinct-only", (MEAS, "        bitstrings = convert_tuples_to_bitstrings(self.bitstrings)\n        return dict(Counter(bitstrings))", "        bitstrings = convert_tuples_to_bitstrings(set(self.bitstrings))\n        return dict(Counter(bitstrings))"), rule="C10-D5")
+B("C10", "add-counts-once-each", (MEAS, "            self.bitstrings += [tuple(measurement)] * counts[bitstring]", "            self.bitstrings += [tuple(measurement)] * 1"), rule="C10-D5")
+B("C10", "distribution-divides-by-distinct", (MEAS, "        counts = self.get_counts()\n        num_measurements = len(self.bitstrings)\n\n        distribution = {}", "        counts = self.get_counts()\n        num_measurements = len(counts)\n\n        distribution = {}"), rule="C10-D5")
+B("C10", "tallies-misaligned-unique", (PAR, "    bitstrings_vector = np.array([*bitstring_frequencies.keys()])", "    bitstrings_vector = np.unique(np.array(measurements), axis=0)"), rule="C10-D6")
+B("C10", "tallies-even-odd-swapped", (PAR, "        values.append([true_parity_count, false_parity_count])", "        values.append([false_parity_count, true_parity_count])"), rule="C10-D6")
+B("C10", "pair-tallies-slots-swapped", (PAR, "            correlations[0][term1_index, term2_index][0] += (\n                (1 - equal_parities) * bitstring_counts", "            correlations[0][term1_index, term2_index][0] += (\n                (equal_parities) * bitstring_counts"), rule="C10-D6")
+B("C10", "expectation-sorts-bitstrings", (MEAS, "        bitstring_frequencies = self.get_counts()\n        num_measurements = len(self.bitstrings)\n\n        # Perform weighted average", "        self.bitstrings.sort()\n        bitstring_frequencies = self.get_counts()\n        num_measurements = len(self.bitstrings)\n\n        # Perform weighted average"), rule="C10-D7")
+T("C10", "twin-xor-operator", (MEAS, "                marked_qubits = first_term.qubits.symmetric_difference(\n                    second_term.qubits\n                )", "                marked_qubits = first_term.qubits ^ second_term.qubits"))
+T("C10", "twin-constant-shortcut-correct", (MEAS, """                marked_qubits = first_term.qubits.symmetric_difference(
+                    second_term.qubits
+                )
+                correlations[i, j] = (
+                    first_term.coefficient
+                    * second_term.coefficient
+                    * get_expectation_value_from_frequencies(
+                        marked_qubits, bitstring_frequencies
+                    )
+                )""", """                if second_term.is_constant:
+                    correlations[i, j] = second_term.coefficient * expectation_values[i]
+                elif first_term.is_constant:
+                    correlations[i, j] = first_term.coefficient * expectation_values[j]
+                else:
+                    marked_qubits = first_term.qubits.symmetric_difference(
+                        second_term.qubits
+                    )
+                    correlations[i, j] = (
+                        first_term.coefficient
+                        * second_term.coefficient
+                        * get_expectation_value_from_frequencies(
+                            marked_qubits, bitstring_frequencies
+                        )
+                    )"""))
+T("C10", "twin-denominator-negated-flag", (MEAS, "            num_measurements - 1 if use_bessel_correction else num_measurements", "            num_measurements if not use_bessel_correction else num_measurements - 1"))
+T("C10", "twin-outer-product", (MEAS, "            - expectation_values[:, np.newaxis] * expectation_values[np.newaxis, :]", "            - np.outer(expectation_values, expectation_values)"))
